@@ -146,7 +146,43 @@ class Arr:
         return Arr([self.axes[1], self.axes[0]], lambda i, j: self.at(j, i), self.dtype)
 
     def ravel(self):
-        raise Undecided("ravel() is modelled only in the flat-view contracts")
+        """Row-major flat view.  Modelled through the ravel/reshape contract: the flat array
+        is an uninterpreted function of the flat position, linked to its source (`flat_of`);
+        reshape(src.shape) of an array with the same flat length is the inverse bijection."""
+        if self.ndim == 1 and not self.axes[0].masked:
+            return self
+        if getattr(self, "_flat", None) is None:
+            if self.ndim == 2 and not any(a.masked for a in self.axes):
+                # row-major: flat[c] = a[c // nx, c % nx]; only ever compared syntactically
+                nx = self.axes[1].size
+                src = self
+                fl = Arr([Axis(self.size)], lambda c: src.at(c // nx, c % nx), self.dtype)
+            else:
+                raise Undecided("ravel of an array of rank %d" % self.ndim)
+            fl.flat_of = self
+            self._flat = fl
+        return self._flat
+
+    def reshape(self, *shape):
+        if len(shape) == 1 and isinstance(shape[0], (tuple, list)):
+            shape = tuple(shape[0])
+        if self.ndim != 1:
+            raise Undecided("reshape of n-d")
+        if len(shape) == 1:
+            if not same_num(shape[0], self.axes[0].size):
+                raise ValueError("cannot reshape")
+            return self
+        tot = Num(1)
+        for d in shape:
+            tot = tot * num(d)
+        engine().oblige("reshape-size-matches", tot == self.axes[0].size, kind="call-pre")
+        r = Arr([Axis(d) for d in shape], None, self.dtype)
+        r._flat = self
+        r._fn = lambda *c: (_ for _ in ()).throw(Undecided("element of a reshaped array (use .ravel())"))
+        return r
+
+    def flatten(self):
+        return self.ravel()
 
     def tolist(self):
         return self
@@ -378,6 +414,15 @@ class Arr:
         return m
 
     def __getitem__(self, key):
+        if isinstance(key, slice) and key.start is None and key.stop is None and key.step is not None \
+                and num(key.step).concrete and num(key.step).t == -1 and self.ndim == 1 and not self.axes[0].masked:
+            n = self.axes[0].size
+            src = self
+            r = Arr(self.axes, lambda k: src.at(n - 1 - k), self.dtype)
+            if getattr(self, "inverse", None) is not None:
+                inv = self.inverse
+                r.inverse = lambda c: n - 1 - inv(c)
+            return r
         new_axes, plan = self._plan(key)
         m = self._mapper(new_axes, plan)
         for p in plan:
@@ -392,6 +437,18 @@ class Arr:
 
     def __setitem__(self, key, val):
         new_axes, plan = self._plan(key)
+        if len(plan) == 1 and plan[0][0] == "fancy" and getattr(plan[0][2], "inverse", None) is not None \
+                and self.ndim == 1 and isinstance(val, Arr) and val.ndim == 1:
+            # store through a PERMUTATION index array (argsort contract): every position is
+            # written exactly once: new[c] = val[inverse(c)]
+            idx = plan[0][2]
+            if not same_num(idx.axes[0].size, self.axes[0].size) or not same_num(val.axes[0].size, self.axes[0].size):
+                raise ValueError("shape mismatch in permutation store")
+            engine().store_check(self.dtype, val.dtype)
+            inv = idx.inverse
+            self._fn = lambda c: val.at(inv(c))
+            self._memo = {}
+            return
         for p in plan:
             if p[0] in ("fancy", "new"):
                 raise Undecided("fancy-index / newaxis store")
